@@ -121,13 +121,21 @@ func VF_C07_K1_Dispatch() {
 	var frame []byte
 	symCount := false
 	count := 0
-	switch zzvf.Choose("params", 4) {
+	pcase := zzvf.Choose("params", 7)
+	switch pcase {
 	case 0:
 		frame, _ = json.Marshal(vfFrameReq{ID: 7, Method: method})
 	case 1:
 		frame, _ = json.Marshal(vfFrameReq{ID: 7, Method: method, Params: json.RawMessage(`null`)})
 	case 2:
 		frame, _ = json.Marshal(vfFrameReq{ID: 7, Method: method, Params: json.RawMessage(`{"count":"x"}`)})
+	case 4:
+		// params present without a count: the default applies
+		frame, _ = json.Marshal(vfFrameReq{ID: 7, Method: method, Params: json.RawMessage(`{}`)})
+	case 5:
+		frame, _ = json.Marshal(vfFrameReq{ID: 7, Method: method, Params: json.RawMessage(`{"count":null}`)})
+	case 6:
+		frame, _ = json.Marshal(vfFrameReq{ID: 7, Method: method, Params: json.RawMessage(`{"foo":"bar"}`)})
 	case 3:
 		symCount = true
 		count = zzvf.Int("count")
@@ -140,6 +148,12 @@ func VF_C07_K1_Dispatch() {
 	zzvf.Assert(err == nil, "wellformed-frame-is-handled")
 	total := len(rec.replies) + rec.calls
 	zzvf.Assert(total == 1, "exactly-one-reply-or-one-requester-call")
+	// a grammatical unsubscribe whose params carry no count, or a positive
+	// one, is dispatched (count defaults to 1)
+	if prefix == "unsubscribe." && vfValidRID(method[len(prefix):]) && (pcase != 2 && (pcase != 3 || count > 0)) {
+		zzvf.Reach("c07k1-unsubscribe-dispatched")
+		zzvf.Assert(rec.calls == 1 && rec.verb == "unsubscribe", "valid-unsubscribe-is-dispatched")
+	}
 	if rec.calls == 1 {
 		zzvf.Reach("c07k1-dispatched")
 		zzvf.Assert(vfValidRID(rec.rid), "dispatched-rid-is-grammatical")
